@@ -17,7 +17,7 @@ import (
 	"verif/lib/vr"
 )
 
-var full = []string{"get:a", "get:b", "set:a", "set:b", "del:a", "del:b", "scan"}
+var full = []string{"get:a", "get:b", "set:a", "set:b", "del:a", "del:b", "scan", "scank"}
 
 func families(quick bool) []txnh.Family {
 	rep := func(a []string, n int) [][]string {
@@ -30,7 +30,7 @@ func families(quick bool) []txnh.Family {
 	cd := []string{"commit", "discard"}
 	small := []string{"get:a", "set:a", "set:b"}
 	wrs := []string{"set:a", "set:b", "del:a"}
-	mnt := []string{"get:a", "set:a", "del:a", "scan"}
+	mnt := []string{"get:a", "set:a", "del:a", "scan", "scank"}
 	env := [][]string{{"rf"}, {"rf", "compact"}}
 	// Trim window: key a is committed once, a lagging reader (slot 1) begins, an unrelated
 	// commit moves the clock; then every merge of {the lagging reader ends; T reads a and
@@ -41,7 +41,7 @@ func families(quick bool) []txnh.Family {
 		Prelude: "9.begin 9.set:a 9.commit 1.begin 8.begin 8.set:b 8.commit",
 		Fixed: [][]txnh.Script{
 			{S("~", "commit")},
-			{S("get:a", "set:a", "commit"), S("get:a", "set:b", "commit"), S("scan", "set:b", "commit")},
+			{S("get:a", "set:a", "commit"), S("get:a", "set:b", "commit"), S("scan", "set:b", "commit"), S("scank", "set:b", "commit")},
 			{S("set:a", "commit"), S("del:a", "commit")},
 			{S("set:b", "commit"), S("set:a", "commit")},
 		}}
@@ -50,7 +50,7 @@ func families(quick bool) []txnh.Family {
 			trim,
 			{Name: "ns-2txn", Slots: rep(full, 2), MaxOps: []int{2, 2}, Ends: cd, Reduce: true, Symmetry: true},
 			{Name: "ns-3txn", Slots: rep(full, 3), MaxOps: []int{1, 1, 1}, Ends: cd, Reduce: true, Symmetry: true},
-			{Name: "ns-2txn-readonly", Slots: [][]string{full, {"get:a", "get:b", "scan"}}, MaxOps: []int{2, 3}, Ends: cd, ReadOnly: []bool{false, true}, Reduce: true},
+			{Name: "ns-2txn-readonly", Slots: [][]string{full, {"get:a", "get:b", "scan", "scank"}}, MaxOps: []int{2, 3}, Ends: cd, ReadOnly: []bool{false, true}, Reduce: true},
 			{Name: "ns-3txn-rw", Slots: [][]string{full, wrs, wrs}, MaxOps: []int{2, 1, 1}, SlotEnds: [][]string{cd, {"commit"}, {"commit"}}, Reduce: true},
 			{Name: "fresh-3txn", Slots: [][]string{small, {"set:a"}, {"set:b"}}, MaxOps: []int{2, 1, 1}, Ends: []string{"commit"}, Reduce: true, Fresh: true},
 			{Name: "fresh-maint", Slots: rep(mnt, 2), MaxOps: []int{1, 1}, Ends: []string{"commit"}, Reduce: true, Fresh: true, Warm: 1, EnvSets: env},
@@ -60,7 +60,7 @@ func families(quick bool) []txnh.Family {
 		trim,
 		{Name: "ns-2txn", Slots: rep(full, 2), MaxOps: []int{3, 3}, Ends: cd, Reduce: true, Symmetry: true},
 		{Name: "ns-3txn", Slots: rep(full, 3), MaxOps: []int{2, 1, 1}, Ends: cd, Reduce: true},
-		{Name: "ns-2txn-readonly", Slots: [][]string{full, {"get:a", "get:b", "scan"}}, MaxOps: []int{3, 3}, Ends: cd, ReadOnly: []bool{false, true}, Reduce: true},
+		{Name: "ns-2txn-readonly", Slots: [][]string{full, {"get:a", "get:b", "scan", "scank"}}, MaxOps: []int{3, 3}, Ends: cd, ReadOnly: []bool{false, true}, Reduce: true},
 		{Name: "ns-3txn-rw", Slots: [][]string{full, wrs, wrs}, MaxOps: []int{2, 2, 1}, SlotEnds: [][]string{cd, {"commit"}, {"commit"}}, Reduce: true},
 		{Name: "ns-2txn-nopor", Slots: rep(full, 2), MaxOps: []int{2, 2}, Ends: cd, Reduce: false, Symmetry: true},
 		{Name: "fresh-3txn", Slots: rep(small, 3), MaxOps: []int{2, 1, 1}, Ends: []string{"commit"}, Reduce: true, Fresh: true},
@@ -124,7 +124,7 @@ func main() {
 		Level:       "exploration",
 		Evaluations: total.Counters["histories"],
 		Distinct:    outcomes,
-		Rule:        "every interleaving (at API-call granularity, modulo commuting independent calls and slot/key symmetry) of the begin/get/scan/set/delete/commit|discard scripts of 2-3 concurrently open transactions over keys {a,b}; distinct = distinct observation vectors (every read result and commit verdict)",
+		Rule:        "every interleaving (at API-call granularity, modulo commuting independent calls and slot/key symmetry) of the begin/get/scan/key-only-scan/set/delete/commit|discard scripts of 2-3 concurrently open transactions over keys {a,b}; distinct = distinct observation vectors (every read result and commit verdict)",
 		Samples:     total.SamplesAny(),
 		Exhaustive:  !total.TimedOut,
 		Outcomes:    outcomes,
@@ -137,7 +137,7 @@ func main() {
 			"API calls of different transactions are issued from one goroutine (interleaving at call granularity; preemption inside a call is C05's subject)",
 			"families named ns-* share one long-lived DB per worker with a fresh key namespace per history (oracle state carries over, timestamps are global and tracked by the model); fresh-* families open a new DB per history, so read timestamp 0 is covered",
 			"merges that differ only in the order of adjacent independent calls (buffered writes; reads vs. another transaction's begin/discard) are enumerated once; the thorough tier re-enumerates the 2-transaction family without this reduction",
-			"scans are forward Txn.NewIterator scans of the history's namespace (Seek + ValidForPrefix)",
+			"scans are forward Txn.NewIterator scans of the history's namespace (Seek + ValidForPrefix), value-materialising (scan) and IteratorOptions{KeyOnly:true} with ValueCopy (scank)",
 			"the engine-internal key !NoKV!discard is not user data and is ignored",
 		},
 	})
